@@ -103,16 +103,27 @@ func SourceFileFunction(env *Zlisp, name string, args []Sexp) (Sexp, error) {
 		return SexpNull, WrongNargs
 	}
 
+	// every sourced file leaves its value on the data stack; the
+	// call yields the last one and must leave nothing else behind.
+	start := env.datastack.Size()
 	for _, v := range args {
 		if err := env.sourceItem(v); err != nil {
+			if env.datastack.Size() > start {
+				env.datastack.TruncateToSize(start)
+			}
 			return SexpNull, err
 		}
+	}
+	if env.datastack.Size() <= start {
+		// (source []) names no file
+		return SexpNull, nil
 	}
 
 	result, err := env.datastack.PopExpr()
 	if err != nil {
 		return SexpNull, err
 	}
+	env.datastack.TruncateToSize(start)
 	return result, nil
 }
 
